@@ -118,6 +118,11 @@ F8API size_t modp_dtoa(double value, char* str, int prec) // DD
         /* if halfway, round up if odd, OR
            if last digit is 0.  That last part is strange */
         ++frac;
+        /* same rollover as above, e.g. 0.95 with prec 1 is 1.0 (prec 0 is rounded from the whole part below) */
+        if (prec && frac >= pow10_[prec]) {
+            frac = 0;
+            ++whole;
+        }
     }
 
     /* for very large numbers switch back to native sprintf for exponentials.
